@@ -2,6 +2,9 @@ module verif/harness
 
 go 1.16
 
-require github.com/jcmturner/gokrb5/v8 v8.0.0
+require (
+	github.com/jcmturner/gofork v1.7.6
+	github.com/jcmturner/gokrb5/v8 v8.0.0
+)
 
 replace github.com/jcmturner/gokrb5/v8 => /repo/v8
